@@ -311,7 +311,9 @@ def gen_plan(run_seed, fault_mode=None):
         'p_jitter': wl.choice([0.0, 0.0, 0.02, 0.1]),
     }
     nkeys = wl.randint(1, 4)
-    keys = KEYS[:nkeys]
+    # key names: plain, or (30 %) names with dots that share a stem - keys only have to be valid file names
+    pool = KEYS if wl.random() > 0.3 else ['a', 'a.0', 'a.1', 'b.x']
+    keys = pool[:nkeys] if pool is KEYS else wl.sample(pool, nkeys)
     enabled = {'set', 'get'}
     for k in OP_KINDS:
         if wl.random() < 0.6:
@@ -321,6 +323,9 @@ def gen_plan(run_seed, fault_mode=None):
     weights['get'] *= 2
     kinds = sorted(enabled)
     n_ops = wl.randint(4, 40)
+    if wl.random() < 0.004:
+        n_ops = wl.randint(150, 400)  # a long-lived cache: defects that need many operations to show
+        cfg['granularity'] = 'sync'
     ops = []
     n_caches = 1
     uid = 0
